@@ -117,6 +117,11 @@ func (fr *fanoutRun) fn(ctx context.Context, node int, req *storepb.WriteRequest
 	fr.arrived[i] = true
 	ch := fr.rel[i]
 	fr.mu.Unlock()
+	if isLocal(fr.outs[i]) {
+		// the handler was supposed to have no connection to this peer (back-off window already over):
+		// the run does not realise its case and is repeated; answer at once so that it ends quickly
+		return status.Error(codes.Unavailable, "verif: write reached a peer that should have been refused")
+	}
 	select {
 	case <-ch:
 	case <-ctx.Done():
@@ -232,7 +237,7 @@ func (d *fanoutDriver) prime(e *env, down map[int]bool, runID string, nn int) {
 		// failure would already refuse the later primers
 		select {
 		case <-all:
-		case <-time.After(2 * time.Second):
+		case <-time.After(300 * time.Millisecond):
 			if primeTimeouts.Add(1) <= 3 {
 				mu.Lock()
 				d.t.Logf("primer barrier timeout: node %d own=%v down=%v arrived=%v", node, own, down, arrivedAt)
@@ -264,6 +269,7 @@ func (d *fanoutDriver) prime(e *env, down map[int]bool, runID string, nn int) {
 		}()
 	}
 	wg.Wait()
+	time.Sleep(time.Millisecond) // the completion callbacks (which mark the peers) run right after the answers
 }
 
 // runOrder executes the case once with the given response order (1-based er indices) and retries
